@@ -11,6 +11,7 @@ import (
 	"sync"
 	"time"
 
+	"github.com/fabiolb/fabio/auth"
 	"github.com/fabiolb/fabio/config"
 	"github.com/fabiolb/fabio/route"
 
@@ -88,6 +89,9 @@ type GrpcProxyInterceptor struct {
 	Config       *config.Config
 	StatsHandler *GrpcStatsHandler
 	GlobCache    *route.GlobCache
+
+	// Auth schemes registered with the server
+	AuthSchemes map[string]auth.AuthScheme
 }
 
 type targetKey struct{}
@@ -129,6 +133,18 @@ func (g GrpcProxyInterceptor) Stream(srv interface{}, stream grpc.ServerStream, 
 		return status.Error(codes.PermissionDenied, "access denied")
 	}
 
+	if target.AuthScheme != "" {
+		// gRPC clients send their credentials in the authorization metadata
+		md, _ := metadata.FromIncomingContext(ctx)
+		req := &http.Request{Header: http.Header{}}
+		for _, v := range md.Get("authorization") {
+			req.Header.Add("Authorization", v)
+		}
+		if !target.Authorized(req, nopResponseWriter{http.Header{}}, g.AuthSchemes) {
+			return status.Error(codes.Unauthenticated, "unauthorized")
+		}
+	}
+
 	ctx = context.WithValue(ctx, targetKey{}, target)
 
 	proxyStream := proxyStream{
@@ -147,6 +163,14 @@ func (g GrpcProxyInterceptor) Stream(srv interface{}, stream grpc.ServerStream, 
 
 	return err
 }
+
+// nopResponseWriter discards the challenge which an auth scheme
+// writes for HTTP clients.
+type nopResponseWriter struct{ header http.Header }
+
+func (w nopResponseWriter) Header() http.Header       { return w.header }
+func (nopResponseWriter) Write(b []byte) (int, error) { return len(b), nil }
+func (nopResponseWriter) WriteHeader(int)             {}
 
 func (g GrpcProxyInterceptor) lookup(ctx context.Context, fullMethodName string) (*route.Target, error) {
 	pick := route.Picker[g.Config.Proxy.Strategy]
